@@ -47,45 +47,63 @@ fn spec_predicate(p: &Predicate) -> bool {
 }
 
 fn gen_set(r: &mut Rng) -> (SolutionSet, serde_json::Value) {
-    // one or two dimensions at a boundary, the rest small
+    // one dimension at a boundary (sometimes two), the rest small; the item that carries the boundary value
+    // sits at a random position (solution, slot, mutation), not always first
     let which = r.below(8);
-    let ns = if which == 0 { dim(r, 100, 1.0) } else { 1 + r.below(3) };
-    let total_muts = if which == 1 { dim(r, 1000, 1.0) } else { r.below(6) };
-    let slots = if which == 2 { dim(r, 100, 1.0) } else { r.below(3) };
-    let slot_len = if which == 3 { dim(r, 10_000, 1.0) } else { r.below(4) };
-    let key_len = if which == 4 { dim(r, 1000, 1.0) } else { 1 + r.below(3) };
-    let val_len = if which == 5 { dim(r, 10_000, 1.0) } else { r.below(4) };
-    let dup = which == 6 || r.chance(0.05);
-    let cross_dup = which == 7;
+    let second = if r.chance(0.15) { r.below(8) } else { 99 };
+    let at = |d: usize| which == d || second == d;
+    let ns = if at(0) { dim(r, 100, 1.0) } else { 1 + r.below(4) };
+    let total_muts = if at(1) { dim(r, 1000, 1.0) } else { r.below(7) };
+    let slots = if at(2) { dim(r, 100, 1.0) } else { r.below(3) };
+    let slot_len = if at(3) { dim(r, 10_000, 1.0) } else { r.below(4) };
+    let key_len = if at(4) { dim(r, 1000, 1.0) } else { 1 + r.below(3) };
+    let val_len = if at(5) { dim(r, 10_000, 1.0) } else { r.below(4) };
+    let dup = at(6) || r.chance(0.05);
+    let cross_dup = at(7);
+    let ts = if ns > 0 { r.below(ns) } else { 0 }; // the solution carrying the boundary slots
+    let big_slot = if slots > 0 { r.below(slots) } else { 0 };
     let mut solutions: Vec<Solution> = (0..ns)
         .map(|i| Solution {
             predicate_to_solve: PredicateAddress { contract: ContentAddress([i as u8; 32]), predicate: ContentAddress([7; 32]) },
-            predicate_data: (0..if i == 0 { slots } else { r.below(2) }).map(|j| vec![j as Word; if i == 0 && j == 0 { slot_len } else { 1 }]).collect(),
+            predicate_data: (0..if i == ts { slots } else { r.below(2) }).map(|j| vec![j as Word; if i == ts && j == big_slot { slot_len } else { 1 }]).collect(),
             state_mutations: vec![],
         })
         .collect();
     if ns > 0 {
+        let (big_key, big_val) = (r.below(total_muts.max(1)), r.below(total_muts.max(1)));
+        let offset = r.below(ns);
         for m in 0..total_muts {
-            let si = m % ns;
-            let mut key = vec![m as Word; if m == 0 { key_len } else { 2 }];
+            let si = (m + offset) % ns;
+            let mut key = vec![m as Word; if m == big_key { key_len } else { 2 }];
             if key.is_empty() && solutions[si].state_mutations.iter().any(|x| x.key.is_empty()) {
                 key = vec![m as Word];
             }
-            solutions[si].state_mutations.push(Mutation { key, value: vec![1; if m == 0 { val_len } else { 1 }] });
+            solutions[si].state_mutations.push(Mutation { key, value: vec![1; if m == big_val { val_len } else { 1 }] });
         }
-        if dup && !solutions[0].state_mutations.is_empty() {
-            let k = solutions[0].state_mutations[0].key.clone();
-            solutions[0].state_mutations.push(Mutation { key: k, value: vec![9] });
+        let with_muts: Vec<usize> = (0..ns).filter(|i| !solutions[*i].state_mutations.is_empty()).collect();
+        if dup && !with_muts.is_empty() {
+            // the same key twice in one solution, both copies anywhere in its list
+            let si = *r.pick(&with_muts);
+            let n = solutions[si].state_mutations.len();
+            let k = solutions[si].state_mutations[r.below(n)].key.clone();
+            let pos = r.below(n + 1);
+            solutions[si].state_mutations.insert(pos, Mutation { key: k, value: vec![9] });
         }
-        if cross_dup && ns >= 2 && !solutions[0].state_mutations.is_empty() {
+        if cross_dup && ns >= 2 && !with_muts.is_empty() {
             // same key in two different solutions is allowed
-            let k = solutions[0].state_mutations[0].key.clone();
-            if !solutions[1].state_mutations.iter().any(|m| m.key == k) && k.len() <= 1000 {
-                solutions[1].state_mutations.push(Mutation { key: k, value: vec![9] });
+            let si = *r.pick(&with_muts);
+            let n = solutions[si].state_mutations.len();
+            let k = solutions[si].state_mutations[r.below(n)].key.clone();
+            let sj = (si + 1 + r.below(ns - 1)) % ns;
+            if !solutions[sj].state_mutations.iter().any(|m| m.key == k) && k.len() <= 1000 {
+                let pos = r.below(solutions[sj].state_mutations.len() + 1);
+                solutions[sj].state_mutations.insert(pos, Mutation { key: k, value: vec![9] });
             }
         }
     }
-    let dims = json!({"solutions": ns, "total_mutations": solutions.iter().map(|s| s.state_mutations.len()).sum::<usize>(), "slots": slots, "slot_len": slot_len, "key_len": key_len, "value_len": val_len, "duplicate_key": dup, "same_key_in_two_solutions": cross_dup});
+    let dims = json!({"solutions": ns, "total_mutations": solutions.iter().map(|s| s.state_mutations.len()).sum::<usize>(), "slots": slots, "slots_in_solution": ts, "slot_len": slot_len,
+        "key_len": key_len, "value_len": val_len, "duplicate_key": dup, "same_key_in_two_solutions": cross_dup,
+        "mutations_per_solution": solutions.iter().map(|s| s.state_mutations.len()).collect::<Vec<_>>()});
     (SolutionSet { solutions }, dims)
 }
 
@@ -135,8 +153,15 @@ pub fn run(args: &Args, rep: &mut Report) {
             .map(|i| {
                 if Some(i) == bad_at {
                     let mut q = gen_pred(&mut r, false);
-                    q.edges = vec![0; 1001];
+                    if r.chance(0.5) {
+                        q.edges = vec![0; 1001];
+                    } else {
+                        q.nodes = (0..1001).map(|k| Node { edge_start: u16::MAX, program_address: ContentAddress([k as u8; 32]) }).collect();
+                    }
                     q
+                } else if r.chance(0.02) {
+                    // members exactly at the limits are fine
+                    gen_pred(&mut r, true)
                 } else {
                     gen_pred(&mut r, false)
                 }
